@@ -37,7 +37,8 @@ structure DCfg where
   auto : Bool      -- callbacks are not gated: they end by themselves
   pm   : Nat       -- ungated callbacks panic iff first task % pm = 3
 
-def chunkSize (x : Task) : Nat := x % 8
+/-- the byte size the harness declares for task x: codes 0..5 are themselves, 6 = a NEGATIVE size (-2), 7 = a huge one (2^40) -/
+def chunkSize (x : Task) : Int := match x % 8 with | 6 => -2 | 7 => 1099511627776 | k => (k : Int)
 
 def classOf : Pc → String
   | .idle => "idle" | .aSend => "send" | .aConfirm => "confirm"
@@ -301,7 +302,7 @@ def holdsAfter (holds : Holds) : List String → Holds
   | _ => holds
 
 def bytesOf (kind : String) (l : List Nat) : Int :=
-  if kind = "chunk" then (((l.map chunkSize).sum : Nat) : Int) else (l.length : Int)
+  if kind = "chunk" then (l.map chunkSize).sum else (l.length : Int)
 
 def runLine (d : DCfg) (kind : String) (max : Int) (sec : Nat) (acc : Report × DState) (l : Line) : Report × DState := Id.run do
   let (r0, ds0) := acc
@@ -325,7 +326,7 @@ def runLine (d : DCfg) (kind : String) (max : Int) (sec : Nat) (acc : Report × 
     | ["drain"] => none
     | _ => ds.bholder
   -- tokens that carry the event order inside the line are for the monitor only
-  let obsCmp := l.obs.filter fun t => !(t.startsWith "ends=" || t.startsWith "wret=")
+  let obsCmp := l.obs.filter fun t => !(t.startsWith "ends=" || t.startsWith "wret=" || t.startsWith "unprot=")
   let implCmp := joinSp obsCmp
   -- (a) the monitor, on the implementation's observation alone
   if impl ≠ "skip" then
@@ -345,6 +346,9 @@ def runLine (d : DCfg) (kind : String) (max : Int) (sec : Nat) (acc : Report × 
       | none => nf
     let (m', msgs) := ds.mon.step (callOf ds.bholder l.op) idle nf endsAt
     if wret.any (fun p => p.2 < ends.length) then r := r.addCover "wait-returned-before-last-callback-end-of-line"
+    -- "a panicking callback loses only its own batch": the callback must run under the executor's panic protection
+    for x in parseNats (kvStr l.obs "unprot" "-") do
+      r := r.violation sec l.idx s!"the callback of the batch starting with task {x} runs without panic protection (no threading.RunSafe on the stack of Execute): a panicking callback would not lose only its own batch, it would take down the flusher goroutine and the process"
     for msg in msgs do r := r.violation sec l.idx msg
     ds := { ds with mon := m' }
     for c in ws do r := r.addCover ("caller-" ++ c)
@@ -378,6 +382,11 @@ def runLine (d : DCfg) (kind : String) (max : Int) (sec : Nat) (acc : Report × 
         if after = max + 1 then r := r.addCover s!"add-lands-at-{kind}-threshold+1"
         if after > max + 1 ∧ max ≥ 1 then r := r.addCover s!"add-lands-above-{kind}-threshold+1"
         if kind = "chunk" ∧ chunkSize x = 0 then r := r.addCover "chunk-task-of-0-bytes"
+        if kind = "chunk" ∧ chunkSize x < 0 then r := r.addCover "chunk-task-of-negative-size"
+        if kind = "chunk" ∧ chunkSize x > 1000000 then r := r.addCover "chunk-task-of-huge-size"
+        if kind = "chunk" ∧ chunkSize x = 0 ∧ c0.isEmpty then r := r.addCover "chunk-task-of-0-bytes-into-empty-container"
+        if max ≤ 0 then r := r.addCover s!"add-with-{kind}-threshold<=0"
+        if max = 1 then r := r.addCover s!"add-with-{kind}-threshold=1"
       | none => pure ()
     | _, _ => pure ()
     ds := { ds with lastCont := if ws.contains "hold" ∨ ws.contains "alock" then none else some cont }
@@ -387,6 +396,7 @@ def runLine (d : DCfg) (kind : String) (max : Int) (sec : Nat) (acc : Report × 
     if ws.contains "hold" ∧ ws.contains "flock" then r := r.addCover "flush-or-wait-while-caller-holds-lock"
     if ws.contains "hold" ∧ ws.contains "alock" then r := r.addCover "add-while-caller-holds-lock"
     if fls.contains "hold" ∧ ws.contains "alock" then r := r.addCover "add-while-flusher-holds-lock-in-tick-flush"
+    if fls.contains "qlock" ∧ ws.contains "hold" ∧ cont.length > 0 then r := r.addCover "add-slipped-between-empty-tick-flush-and-quit-check"
     -- input class: somebody is parked at the wait-group barrier (before wg.Add) when the barrier is released
     if l.op.head? = some "brel" then
       match ds.lastWs with
